@@ -35,6 +35,14 @@ func (e *Exec) call(fr *Frame, st *BState, x *ssa.Call) SV {
 		if c.Method.FullName() == "(error).Error" {
 			return &Scalar{T: errMsg(e.val(fr, c.Value).(*IfaceV)), Ty: x.Type()}
 		}
+		// ghost call counter per interface method name (calls(Name) in contracts)
+		cn := "$calls." + c.Method.Name()
+		old := intLit(0)
+		if v, ok := st.ghost[cn]; ok {
+			old = scal(v)
+		}
+		st.ghost[cn] = intSV(add(old, intLit(1)))
+		ghostTypes[cn] = types.Typ[types.Int]
 		return havoc("invoke " + c.Method.FullName())
 	}
 	var args []SV
@@ -528,7 +536,7 @@ func (e *Exec) callByContract(fr *Frame, st *BState, x *ssa.Call, f *ssa.Functio
 		for k, h := range st.heap {
 			for pre := range keys {
 				if strings.HasPrefix(k, pre) {
-					st.heap[k] = e.fresh("call."+f.Name()+"."+k, h.Sort)
+					st.heap[k] = e.havocHeapKey(k, h, "call."+f.Name()+".")
 					break
 				}
 			}
@@ -544,6 +552,23 @@ func (e *Exec) callByContract(fr *Frame, st *BState, x *ssa.Call, f *ssa.Functio
 	}
 	if o, m := producesInto(f); o || m {
 		e.havocOutTraces(st, "call."+f.Name(), o, m)
+	}
+	// interface-call counters may advance by an unknown amount inside the callee (its ensures say by how much)
+	calleeInvokes := map[string]bool{}
+	invokedMethods(f, map[*ssa.Function]bool{}, calleeInvokes)
+	for m := range calleeInvokes {
+		if _, ok := st.ghost["$calls."+m]; !ok {
+			st.ghost["$calls."+m] = intSV(intLit(0))
+			pre.ghost["$calls."+m] = intSV(intLit(0))
+			ghostTypes["$calls."+m] = types.Typ[types.Int]
+		}
+	}
+	for k := range st.ghost {
+		if strings.HasPrefix(k, "$calls.") && calleeInvokes[strings.TrimPrefix(k, "$calls.")] {
+			nv := e.fresh("call."+k, SInt)
+			e.assume(le(scal(st.ghost[k]), nv))
+			st.ghost[k] = intSV(nv)
+		}
 	}
 	var res SV
 	var results []SV
